@@ -357,7 +357,7 @@ def gen_c02_decls(rng, tier):
         n += 1
     for ty in ("f32", "f64"):
         is64 = FLOAT_TYPES[ty]
-        texts = ["-5.5", "0.0", "64.0", "1e3", "2.5E-3", "1_000.5", "7", "-0.0", "100"]
+        texts = ["-5.5", "0.0", "64.0", "1e3", "2.5E-3", "1_000.5", "7", "-0.0", "100", "1.4142135623730951", "0.30000000000000004", "3.1415927", "16777216.0"]
         for si, style in enumerate(["lit", "const", "negconst", "parenconst", "parenlit"]):
             for ki, kind in enumerate(LOWER + UPPER):
                 t = texts[(si * 2 + ki) % len(texts)]
@@ -579,6 +579,12 @@ def gen_gentest_decls(rng, tier):
         b.add("String", [block("sanitize", [[tid("trim")]]), block("validate", [[tid("not_empty")]]), [tid("default"), EQ, tx(estr(dv))], D(["Debug", "Default"])], "gentest")
     for dv in ([1], [], [1, 2, 3, 4, 5]):
         b.add("Vec<i32>", [block("validate", [[tid("predicate"), EQ, tfn(0, "p", "p")]]), [tid("default"), EQ, tx(elist(dv))], D(["Debug", "Default"])], "gentest")
+    # default expressions spelled with braces (a block, an if): same value, the generated test must still build
+    for ty, dv in (("i32", 5), ("i32", 500)):
+        env = [("DV", ty, dv, "const DV: %s = %d;" % (ty, dv))]
+        for spelled in ("{ DV }", "if true { DV } else { 0 }"):
+            b.add(ty, [block("validate", [[tid("less"), EQ, li(100)], [tid("greater"), EQ, li(0)]]),
+                       [tid("default"), EQ, tx(k("DV", spelled))], D(["Debug", "Default"])], "gentest", env=env)
     # custom validation: the default test is emitted too
     WC, EC = [tid("with"), EQ, tfn(0, "p", "c")], [tid("error"), EQ, tpath("CErr")]
     for ty, dvs in (("i32", [li(5), li(-5), li(500)]), ("f64", [lf("1.5"), lf("-1.5"), lf("500.0")]), ("String", [tx(estr("ab")), tx(estr("xab")), tx(estr(""))])):
